@@ -21,6 +21,7 @@ import (
 	"math"
 	"os"
 	"sort"
+	"strings"
 
 	"github.com/deadsy/sdfx/sdf"
 	v2 "github.com/deadsy/sdfx/vec/v2"
@@ -216,6 +217,8 @@ func c04Generate(c *Ctx, idx int) *c04Case {
 			size, q = r.LogR(0.1, 1000)*math.Sqrt2, 0
 			if r.P(0.3) { // models in micrometres / metre-sized parts in millimetres
 				size = r.LogR(1000, 1e6) * math.Sqrt2
+			} else if r.P(0.25) { // fine detail: outlines of a few thousandths of a unit (edges down to 1e-6)
+				size = r.LogR(2e-3, 0.1) * math.Sqrt2
 			}
 		}
 		for i := range v {
@@ -277,10 +280,23 @@ func c04Generate(c *Ctx, idx int) *c04Case {
 		}
 		k := r.I(len(v))
 		v = append(append([]v2.Vec{}, v[k:]...), v[:k]...)
-		// exact verification of the domain: simple polygon, no micro edges
+		// a junction listed twice: where two separately computed pieces of an outline meet, the shared point appears once per
+		// piece and the two copies differ by rounding (an arc ending at (-r, 1.2e-16 r) followed by the literal corner (-r, 0))
+		micro := -1
+		if cs.Grid == "irrational" && r.P(0.3) {
+			i := r.I(len(v))
+			d := v[(i+1)%len(v)].Sub(v[i])
+			w := v[i].Add(d.MulScalar(r.LogR(1e-17, 1e-10) * size / d.Length()))
+			if w != v[i] {
+				v = append(v[:i+1], append([]v2.Vec{w}, v[i+1:]...)...)
+				micro = i
+				cs.Place += "+junction-listed-twice"
+			}
+		}
+		// exact verification of the domain: simple polygon, no micro edges (other than a junction listed twice)
 		ok := c04Simple(v)
 		for i := 0; ok && i < len(v); i++ {
-			if v[i].Sub(v[(i+1)%len(v)]).Length() < 1e-6*size {
+			if i != micro && v[i].Sub(v[(i+1)%len(v)]).Length() < 1e-6*size {
 				ok = false
 			}
 		}
@@ -311,10 +327,12 @@ type c04Geom struct {
 }
 
 const (
-	c04KeyEndpoint = "C04/clipped-endpoint-recomputed"
-	c04KeyUnflush  = "C04/child-box-not-flush-with-neighbour"
-	c04KeyNearSplt = "C04/vertex-within-1e-9-of-split-line"
-	c04KeyCorner   = "C04/edge-through-quadtree-corner"
+	c04KeyEndpoint  = "C04/clipped-endpoint-recomputed"
+	c04KeyUnflush   = "C04/child-box-not-flush-with-neighbour"
+	c04KeyNearSplt  = "C04/vertex-within-1e-9-of-split-line"
+	c04KeyCorner    = "C04/edge-through-quadtree-corner"
+	c04KeyThreePts  = "C04/three-clip-points-in-a-box"
+	c04KeyCollapsed = "C04/clipped-piece-collapsed-to-a-point"
 )
 
 // key labels a violation by properties of the INPUT only (never by the outputs): polygons
@@ -508,7 +526,16 @@ type c04Witness struct {
 
 // c04Tol is the comparison tolerance at a query point: 1e-9 relative to the scale of the
 // float inputs plus the distance itself (legit rounding observed: < 1e-15 of that).
-func c04Tol(scale float64, o c04Answer) float64 { return 1e-9 * (scale + o.dist) }
+// For fine-detail polygons (scale below 0.14, the smallest size of the ordinary classes) the library's own absolute
+// coincidence tolerance of 1e-9 - clipped end points are snapped onto quadtree box edges by up to that much - is added:
+// relative to such a polygon it is no longer negligible.
+func c04Tol(scale float64, o c04Answer) float64 {
+	t := 1e-9 * (scale + o.dist)
+	if scale < 0.14 {
+		t += 1e-9
+	}
+	return t
+}
 
 // c04Judge compares the three answers at one point. Returns "" or a violation kind.
 func c04Judge(fast, slow float64, o c04Answer, tol float64) string {
@@ -580,6 +607,14 @@ func c04Build(v []v2.Vec) (fast, slow sdf.SDF2, g *c04Geom, err error) {
 }
 
 func c04RunPolygon(c *Ctx, cs *c04Case, nPts int) {
+	if d := os.Getenv("VCHECK_DUMP_POLY"); d != "" { // debugging aid: "<index>:<file>"
+		var idx int
+		var file string
+		if n, _ := fmt.Sscanf(strings.Replace(d, ":", " ", 1), "%d %s", &idx, &file); n == 2 && idx == cs.Index {
+			b, _ := json.Marshal(cs)
+			os.WriteFile(file, b, 0644)
+		}
+	}
 	fast, slow, g, err := c04Build(cs.V)
 	if err != nil {
 		c.Violate("", "construct "+err.Error(), cs)
@@ -691,6 +726,10 @@ var c04Pins = []struct {
 		[]v2.Vec{{X: 0.1, Y: -2}, {X: -1.5, Y: -0.4}, {X: 1.7, Y: 0.8}}, v2.Vec{X: -3, Y: -0.4}},
 	{c04KeyCorner, "edge passes through the corner shared by four quadtree boxes: the clipped pieces do not chain (one starts 1 ulp above the split line), the scanline on the split line loses a crossing",
 		[]v2.Vec{{X: 1, Y: -5}, {X: 5, Y: -1.7}, {X: -1, Y: 5}}, v2.Vec{X: 2.8, Y: -2.5249999999999999}},
+	{c04KeyThreePts, "end point 6e-10 beyond a split line, snapped onto it next to the genuine crossing 6e-9 (in t) away: three points in the box, the whole piece was dropped from the leaf",
+		[]v2.Vec{{X: -2, Y: 0}, {X: -0.1, Y: -1}, {X: 6e-10, Y: -1}, {X: 2, Y: 0}, {X: 0, Y: 1}}, v2.Vec{X: -0.05, Y: -1.2}},
+	{c04KeyCollapsed, "a junction listed twice (3e-10 apart) just beyond a split line: both copies are snapped onto the same spot, the zero-length piece has a NaN direction",
+		[]v2.Vec{{X: -2, Y: 0}, {X: -0.1, Y: -1}, {X: 3e-10, Y: -1}, {X: 6e-10, Y: -1}, {X: 2, Y: 0}, {X: 0, Y: 1}}, v2.Vec{X: -0.05, Y: -1.2}},
 }
 
 const c04MaxCoord = 1 << 22
@@ -758,6 +797,7 @@ func checkC04(c *Ctx) {
 		"for magnitudes; sign compared only if the oracle distance exceeds it. Violations are labelled (finding key) by input-side preconditions only: vertex within 1e-9 of " +
 		"a split line, edge through a split corner, query next to a split line that has a non-identical twin.")
 	c.Assume("generated polygons have |coordinate| <= 2^22 (sizes up to 1.4e6); beyond 2^23 float64 spacing exceeds the library's absolute 1e-9 clip tolerance - one pinned witness of that limitation is a known finding")
+	c.Assume("fine-detail polygons (size below 0.14) are compared with an additional absolute 1e-9: the library snaps clipped end points onto quadtree box edges within its package tolerance of 1e-9")
 	c.Assume("polygons with edges shorter than 1e-6 x size are outside the generated domain (VertexToLine closes the loop with an absolute 1e-9 tolerance)")
 	c.Assume("oracle distance is float64 brute force (rounding ~1e-15 relative); inside/outside is exact")
 	if err := c04SelfTest(c); err != nil {
